@@ -116,14 +116,19 @@ class UnimodalPdf(DensityEstimator):
         v = x[sorter]
         intervals = zeros(x.size)
         intervals[0] = (
-            quad(self.__call__, self.lwr_limit, v[0])[0]
-            if v[0] > self.lwr_limit
-            else 0.0
+            self.__integrate(self.lwr_limit, v[0]) if v[0] > self.lwr_limit else 0.0
         )
         for i in range(1, x.size):
-            intervals[i] = quad(self.__call__, v[i - 1], v[i])[0]
+            intervals[i] = self.__integrate(v[i - 1], v[i])
         integral = intervals.cumsum()[inverse_sort]
         return integral if x.size > 1 else integral[0]
+
+    def __integrate(self, a: float, b: float) -> float:
+        # quad samples a range which is much wider than the distribution too sparsely
+        # to find it, so split the range at the limits which enclose the distribution
+        splits = [s for s in (self.lwr_limit, self.upr_limit) if a < s < b]
+        edges = [a, *splits, b]
+        return sum(quad(self.__call__, l, u)[0] for l, u in zip(edges[:-1], edges[1:]))
 
     def evaluate_model(self, x: ndarray, theta: ndarray) -> ndarray:
         return self.pdf_model(x, theta) / self.norm(theta)
